@@ -94,7 +94,7 @@ theorem enum_member_valid (u : UInfo) (v n : Str) (h : enumMemberStr u v = some 
 /-- The python `while` loops terminate and yield pairwise distinct names, one per input. -/
 theorem field_names_nodup (props : List Str) :
     ∃ l, fieldNames props = some l ∧ l.Nodup ∧ l.length = props.length :=
-  Pog.assignAll_spec _ _ Pog.sufUnderscore_inj _
+  Pog.assignAll_map_spec _ _ Pog.sufUnderscore_inj _ _
 
 theorem enum_members_nodup (bases : List Str) :
     ∃ l, enumMemberNames bases = some l ∧ l.Nodup ∧ l.length = bases.length :=
@@ -102,11 +102,11 @@ theorem enum_members_nodup (bases : List Str) :
 
 theorem class_names_nodup (names : List Str) :
     ∃ l, classNames names = some l ∧ l.Nodup ∧ l.length = names.length :=
-  Pog.assignAll_spec _ _ Pog.classCand_inj _
+  Pog.assignAll_map_spec _ _ Pog.classCand_inj _ _
 
 theorem module_stems_nodup (u : UInfo) (names : List Str) :
     ∃ l, moduleStems u names = some l ∧ l.Nodup ∧ l.length = names.length :=
-  Pog.assignAll_spec _ _ Pog.sufUnderscore_inj _
+  Pog.assignAll_map_spec _ _ Pog.sufUnderscore_inj _ _
 
 theorem inline_name_fresh (taken : List Str) (base : Str) :
     ∃ n, inlineName taken base = some n ∧ n ∉ taken :=
